@@ -768,6 +768,29 @@ func main() {
 	vh.Must(err, "register ping-pong codec")
 	tr := vh.NewTrace(*out)
 	defer tr.Close()
+	if *mode == "mux" {
+		mx, err := xc09.RegisterMX()
+		vh.Must(err, "register multiplex codec")
+		for _, name := range strings.Split(*protos, ",") {
+			b := &muxBinding{name: name, codec: mx}
+			switch name {
+			case "xmux":
+				b.wire = xc09.MX{}
+			case "h2":
+				b.wire = xc09.H2{}
+			default:
+				vh.Must(fmt.Errorf("unknown mux proto %s", name), "flags")
+			}
+			b.up, err = xc09.NewUpstream(b.wire)
+			vh.Must(err, "upstream")
+			b.dead, err = xc09.DeadAddr()
+			vh.Must(err, "dead address")
+			runMux(b, *cases, tr, *shard, *shards)
+			b.up.Ln.Close()
+		}
+		fmt.Fprintln(os.Stderr, "c09 driver done, lines:", tr.Len())
+		return
+	}
 	for _, name := range strings.Split(*protos, ",") {
 		b := &binding{name: name, codec: codec}
 		switch name {
